@@ -12,7 +12,8 @@ freedom count the very mask (self.nonzero_bins) that selects the summands,
 and the p-value uses them; MASK-TABLE - with the ignore-empty option the
 kept-bin predicate over (e1 vs 0) x (e2 vs 0) drops exactly (0, 0), without
 the option every bin is kept; QUAD - the denominator is sqrt(e1**2 + e2**2).
-Not decided: the value of the sum, order independence as a floating-point
+VERD-AGG also rejects NaN-unsafe extremum aggregations (builtin min / max,
+numpy nan-extrema). Not decided: the value of the sum, order independence as a floating-point
 fact.
 '''
 ASSUMPTIONS = ['errors are non-negative (C08 DS-SIGN)', 'scipy chi2.sf is '
